@@ -301,12 +301,8 @@ func backend2Scen(c *Ctx) {
 	if s.Drain() != sim.Quiesced || s.Failed() {
 		return
 	}
-	nv := len(s.Violations)
-	world.Quiescence(s, front, world.QuiescenceOpts{})
+	world.Quiescence(s, front, world.QuiescenceOpts{}) // C12.no-leak: reservations, files (reported as C03/C04 clauses)
 	world.Quiescence(s, back, world.QuiescenceOpts{})
-	for i := nv; i < len(s.Violations); i++ {
-		s.Violations[i].Clause = "C12.no-leak/" + s.Violations[i].Clause
-	}
 	if fds := append(world.OpenFDs(front.Dir), world.OpenFDs(back.Dir)...); len(fds) > 0 {
 		s.Violate("C12.no-leak", "b2-grpcproxy/fd", "open descriptors at quiescence: %v", fds)
 	}
